@@ -63,6 +63,7 @@ type Step struct {
 	Stall    int    `json:"stall,omitempty"`   // PeerData: the (stream) client does not read for this many seconds while Burst datagrams arrive for it
 	Burst    int    `json:"burst,omitempty"`
 	Split    int    `json:"split,omitempty"`     // Send / ChannelData from a stream client: the frame is written in two segments, cut at this offset
+	Dup      bool   `json:"dup,omitempty"` // Allocate over UDP: the network delivers the request datagram twice, back to back
 	RespLost bool   `json:"resp_lost,omitempty"` // the listener socket fails to write the response (CreatePermission / ChannelBind)
 }
 
